@@ -70,4 +70,20 @@ PROPS = {
                 "restarted incarnation. Non-trivial = a run in which the crash fired and recovery ran; distinct = "
                 "distinct (schedule trace hash, plan length).",
     },
+    "C11": {
+        "level": "exploration",
+        "quick_runs": 30000, "thorough_runs": 1500000, "chunk": 1000,
+        "thorough_params": {"txs": 40, "ops": 20},
+        "nontrivial_stat": "probe.model_nonempty",
+        "rule": "one run = a generated history on the real ldb wallet database over the simulated disk: write "
+                "transactions (create/delete nested buckets, put, delete, clear, point/prefix reads and bucket "
+                "listings inside the transaction) ending in commit, rollback, an error returned from the Update closure, "
+                "or a process crash inside a storage write of the commit (torn write, reopen from the crash image); "
+                "clean close/reopen; read-only range, prefix and seek iteration; a reader that sees only committed data "
+                "while a write transaction is open. Keys are built from parts that mimic the path separator, the depth "
+                "digits, the bucket-index prefix, 0x00 and 0xff; keys are reused so delete/re-put/read orders on one key "
+                "are common; 30% of runs use a 2 KiB write buffer so memtable flush and compaction run. Oracle: "
+                "operation-by-operation equality with an in-memory reference model; after a crash the store equals the "
+                "state before or after the in-flight commit. Non-trivial = the committed model ended non-empty.",
+    },
 }
